@@ -61,7 +61,7 @@ impl Prop for C04 {
         vec![("grew", 0.3), ("reopened", 0.2)]
     }
     fn release_fraction(&self, tier: Tier) -> f64 {
-        tier.pick(0.3, 0.5)
+        tier.pick(0.3, 0.1)
     }
     fn max_shrink_iters(&self) -> u32 {
         400
